@@ -453,21 +453,22 @@ Definition c06_job (act : c06_action) (input : option c06_opened) (more_warnings
   end.
 
 (* ------------------------------------------------------------------ the per-object key cache (QPDF::getKeyForObject) *)
-(* 'if (og != encp->cached_key_og) { encp->cached_object_encryption_key = compute_data_key(key, obj, gen, use_aes, V, R);
-   encp->cached_key_og = og; } return encp->cached_object_encryption_key;'  -- the cache is keyed by the object only:
-   a second request for the same object gets the key computed for the FIRST request, whatever use_aes says.
-   The decrypt functions above describe one leaf on its own (cache cold, or last used for another object); the functions
-   below describe a sequence of leaves in the order qpdf meets them (an object read lazily: the strings of its
-   dictionary at parse time, then its stream data). *)
-Record c06_cache := { c6c_num : N; c6c_gen : N; c6c_key : list N }.
+(* 'if (og != encp->cached_key_og || use_aes != encp->cached_key_use_aes) { encp->cached_object_encryption_key =
+   compute_data_key(key, obj, gen, use_aes, V, R); encp->cached_key_og = og; encp->cached_key_use_aes = use_aes; }
+   return encp->cached_object_encryption_key;'  -- since fix d9735304 the cache is keyed by the object AND the kind of
+   key (before, by the object only: a stream whose dictionary held a string of the other kind got the string's key).
+   The decrypt functions above describe one leaf on its own; the functions below describe a sequence of leaves in the
+   order qpdf meets them (an object read lazily: the strings of its dictionary at parse time, then its stream data). *)
+Record c06_cache := { c6c_num : N; c6c_gen : N; c6c_aes : bool; c6c_key : list N }.
 
 Definition c06_key_for_object (st : c06_state) (cache : option c06_cache) (num gen : N) (use_aes : bool)
   : list N * option c06_cache :=
   let fresh := kd_compute_data_key (c6t_key st) num gen use_aes (c6t_V st) in
+  let filled := Some {| c6c_num := num; c6c_gen := gen; c6c_aes := use_aes; c6c_key := fresh |} in
   match cache with
-  | Some ch => if (c6c_num ch =? num) && (c6c_gen ch =? gen) then (c6c_key ch, cache)
-               else (fresh, Some {| c6c_num := num; c6c_gen := gen; c6c_key := fresh |})
-  | None => (fresh, Some {| c6c_num := num; c6c_gen := gen; c6c_key := fresh |})
+  | Some ch => if (c6c_num ch =? num) && (c6c_gen ch =? gen) && Bool.eqb (c6c_aes ch) use_aes then (c6c_key ch, cache)
+               else (fresh, filled)
+  | None => (fresh, filled)
   end.
 
 (* the (use_aes, warn) decision for a leaf: None = the data is left alone (the same case analysis as
